@@ -253,6 +253,14 @@ class IntervalFlow:
             return self.refine_all(e.ch[0], not truth, st, subst, depth + 1)
         if e.kind == "DeclRefExpr" and e.refkind == "VarDecl" and not subst:
             # a flag local holding the result of a test: `int ok = a && b;`
+            # - its 0/1 value is tracked since the assignment split the state
+            lo, hi = self.get(st, e.ref)
+            if (lo, hi) != (-INF, INF):
+                if truth:
+                    return [] if lo == hi == 0 else [st]
+                if lo > 0 or hi < 0:
+                    return []
+                return [self.put(st, e.ref, 0, 0)]
             d = self._single_def(e.ref)
             if d is not None:
                 return self.refine_all(d, truth, st, subst, depth + 1)
@@ -374,7 +382,29 @@ class IntervalFlow:
                 else:
                     outs.append((lab, st))
             return outs
-        return [(None, self.kill_assigned(node, st))]
+        outs = [self.kill_assigned(node, st)]
+        # `flag = <boolean combination of tests>`: split the state into the
+        # outcomes of the test, each carrying its refinements and the flag's
+        # 0/1 value (flags assigned more than once, or combined later)
+        if node.ast is not None:
+            for name, rhs in find_assign_in(node.ast):
+                d = strip(rhs)
+                if d is None or d.kind not in ("BinaryOperator",
+                                               "UnaryOperator", "CallExpr") \
+                        or getattr(d, "op", None) not in (
+                            "&&", "||", "!", "<", "<=", ">", ">=", "==", "!=",
+                            None):
+                    continue
+                if d.kind == "CallExpr" and not self.facts.has_func(callee(d)):
+                    continue
+                new = []
+                for truth in (True, False):
+                    for r in self.refine_all(d, truth, st):
+                        r = self.kill_assigned(node, r)
+                        new.append(self.put(r, name, int(truth), int(truth)))
+                if new:
+                    outs = new
+        return [(None, o) for o in outs]
 
     def run(self):
         cfgmod.propagate(self.cfg, frozenset(), self.transfer)
